@@ -52,6 +52,7 @@ type Contract struct {
 	pure     bool
 	noframe  bool
 	keeps    []string
+	protects []*protectsDecl
 	used     bool
 }
 
@@ -288,6 +289,15 @@ func (cs *ContractSet) LoadFile(pkgPath, path string) error {
 				c := &Clause{kind: "allocbound", ids: parseIDs(m[1]), text: m[2], line: ln + 1}
 				cur.allocs = append(cur.allocs, c)
 				last = c
+			} else if strings.HasPrefix(t, "protects") {
+				if err := finish(); err != nil {
+					return err
+				}
+				pd, err := parseProtects(t, ln+1)
+				if err != nil {
+					return fmt.Errorf("%s:%d: %v", path, ln+1, err)
+				}
+				cur.protects = append(cur.protects, pd)
 			} else if strings.HasPrefix(t, "nopanic") {
 				if err := finish(); err != nil {
 					return err
